@@ -49,6 +49,8 @@ type Cfg struct {
 	ReadOnly  bool `json:"ro,omitempty"`
 	NoWriteBE bool `json:"nowbe,omitempty"` // read-only variant B: writeOps=nil, getFileBuffer=nil, level "" (what `serve http` does)
 	TapeMode  bool `json:"tapemode,omitempty"`
+	RSA       bool   `json:"rsa,omitempty"`      // OpenPGP recipient with an RSA encryption key (witness of the open finding rsa-recipient-size-mismatch)
+	RootProp  string `json:"rootprop,omitempty"` // root proposal handed to Initialize on an empty drive ("" means "/"; "./", "." and "" are the other spellings the project's tests use)
 	Foreign   bool `json:"foreign,omitempty"`   // compose with the foreign key set (wrong-key experiments)
 	Overwrite bool `json:"overwrite,omitempty"` // drive manager constructed with overwrite=true (what `stfs operation initialize` does): the first writer truncates, no later one may
 }
@@ -72,6 +74,12 @@ func (c Cfg) String() string {
 	}
 	if c.Overwrite {
 		s += "/overwrite-manager"
+	}
+	if c.RootProp != "" {
+		s += "/root-proposal:" + c.RootProp
+	}
+	if c.RSA {
+		s += "/rsa-recipient"
 	}
 	return s
 }
@@ -442,6 +450,9 @@ func NewRig(dir string, cfg Cfg) (*Rig, error) {
 	if cfg.Foreign {
 		ks = foreignKeys
 	}
+	if cfg.RSA {
+		ks = rsaKeys
+	}
 	rc, wc, err := ks.Crypto(cfg.Enc, cfg.Sig)
 	if err != nil {
 		return nil, err
@@ -537,7 +548,11 @@ func NewRig(dir string, cfg Cfg) (*Rig, error) {
 
 // Init runs the documented open sequence: Initialize("/") then NewCacheFilesystem(root, none).
 func (r *Rig) Init() error {
-	root, err := r.S.Initialize("/", os.ModePerm)
+	prop := "/"
+	if r.Cfg.RootProp != "" {
+		prop = r.Cfg.RootProp
+	}
+	root, err := r.S.Initialize(prop, os.ModePerm)
 	if err != nil {
 		return err
 	}
@@ -620,11 +635,17 @@ func (r *Rig) BreakDrive() error { return os.Rename(tapeDir(r.Dir), tapeDir(r.Di
 var errBreakUnsupported = errors.New("this way of breaking the drive is not available here")
 
 // BreakDriveMode makes the operating system itself refuse the drive for the duration of a call:
+//   - "missing": the directory the drive lives in is gone (ENOENT for every open)
 //   - "isdir": the drive path is a directory (open for writing: EISDIR, reads: EISDIR)
 //   - "immutable": the drive is write-protected for everybody incl. root (immutable attribute: open for writing EPERM, reads work)
 func (r *Rig) BreakDriveMode(mode string) (restore func() error, err error) {
 	away := r.Drive + ".away"
 	switch mode {
+	case "missing":
+		if err := r.BreakDrive(); err != nil {
+			return nil, err
+		}
+		return r.RestoreDrive, nil
 	case "isdir":
 		if err := os.Rename(r.Drive, away); err != nil {
 			return nil, err
